@@ -45,7 +45,9 @@ type RAction struct {
 // ReportCase is a C20 case.
 type ReportCase struct {
 	// ProjDir names the directory holding the spokfile ("" = proj)
-	ProjDir string      `json:"proj_dir,omitempty"`
+	ProjDir string `json:"proj_dir,omitempty"`
+	// Invoke: how spok is pointed at the project (sandbox.Box.Invoke)
+	Invoke  string      `json:"invoke,omitempty"`
 	Vars    [][2]string `json:"vars"`
 	Tasks   []RTask     `json:"tasks"`
 	Actions []RAction   `json:"actions"`
@@ -63,6 +65,7 @@ var reportVarValues = []string{"0.3.0", "spok", "a b", "", "--flag=1", "x/y", "5
 func genReport(t *rapid.T) ReportCase {
 	c := genReportBody(t)
 	c.ProjDir = genProjDir(t)
+	c.Invoke = genInvoke(t)
 	return c
 }
 
@@ -234,7 +237,7 @@ func tableRows(out string) [][]string {
 }
 
 func execReport(s *ev.Shard, b *sandbox.Box, c ReportCase) *rp.Fail {
-	if err := b.ResetAs(c.ProjDir); err != nil {
+	if err := b.ResetFor(c.ProjDir, c.Invoke); err != nil {
 		return &rp.Fail{Sig: "harness", Msg: err.Error()}
 	}
 	src := c.source()
